@@ -164,17 +164,29 @@ Theorem net_lossless : forall s m x,
 Proof. exact net_lossless_lemma. Qed.
 Print Assumptions net_lossless.
 
-(* 16. unchanged tree, outside the stateful stream: vpackCompressVote's msgpack fallback copies
-       into a MaxCompressedVoteSize buffer; a 603-byte vote with sig.ps != 0 (refused by the
-       stateless encoder) is delivered cut to 502 bytes *)
-Theorem fallback_truncates_refuted :
+(* 16. the msgpack fallback is lossless for every length.  A vote the stateless encoder refuses
+       (e.g. sig.ps != 0) is sent whole by vpackCompressVote (fix 8ff1e5c455).  A msgpack vote
+       starts with 0x83 and has more than 420 bytes (the shortest has 493); for every such byte
+       string, of ANY length: if the stateful stream is on, Compress fails on it, the stream is
+       aborted and the vote follows as plain AV; DecompressVote rejects it as well, and the
+       receiver hands on exactly the original bytes, once. *)
+Theorem net_fallback_lossless : forall s m b l,
+  m = 131 :: b :: l -> (418 < List.length l)%nat -> compress_vote true m = None ->
+  broadcast_data m = m /\
+  snd (fst (net_step s m)) = if n_son s then [DNone; DBytes m] else [DBytes m].
+Proof. exact net_fallback_lossless_lemma. Qed.
+Print Assumptions net_fallback_lossless.
+
+(* the fallback BEFORE that fix, as [broadcast_data_unfixed] (copy into a MaxCompressedVoteSize
+   buffer): a well-formed 603-byte vote with sig.ps != 0 arrived cut to 502 bytes *)
+Example ex_unfixed_fallback_truncates :
   let m := long_uncompressible_vote in
   all_bytes m = true /\ List.length m = 603%nat /\ compress_vote true m = None /\
   (exists s0, net_init 16 = Some s0 /\
-     snd (fst (net_step s0 (broadcast_data m))) = [DNone; DBytes (firstn 502 m)]) /\
+     snd (fst (net_step s0 (broadcast_data_unfixed m))) = [DNone; DBytes (firstn 502 m)] /\
+     snd (fst (net_step s0 (broadcast_data m))) = [DNone; DBytes m]) /\
   firstn 502 m <> m.
-Proof. exact fallback_truncates_witness. Qed.
-Print Assumptions fallback_truncates_refuted.
+Proof. exact fallback_unfixed_truncated. Qed.
 
 (* ---- non-vacuity ---- *)
 (* a vote with every optional field, three of the uints non-canonical, is well-formed, accepted,
